@@ -36,7 +36,8 @@ def finalize(obj):
 
     def collect(x):
         if isinstance(x, F):
-            vals.add(x.v)
+            if x.v == x.v:          # NaN has no place in the order: every NaN is encoded as -1 (equal to every other NaN)
+                vals.add(x.v)
         elif isinstance(x, dict):
             for y in x.values():
                 collect(y)
@@ -49,7 +50,7 @@ def finalize(obj):
 
     def rep(x):
         if isinstance(x, F):
-            return order[x.v]
+            return order[x.v] if x.v == x.v else -1
         if isinstance(x, dict):
             return {k: rep(y) for k, y in x.items()}
         if isinstance(x, (list, tuple)):
